@@ -94,6 +94,11 @@ EDITS = {
                "            if sort.data == 'Float16':\n                ew = 5\n",
                "            if sort.data == 'Float16':\n                ew = 6\n",
                'wrong exponent width for Float16'),
+    'C16.R10': ('ddsmt/smtlib.py',
+                "def is_var(node):\n",
+                "import functools\n\n\n@functools.lru_cache(maxsize=None)\ndef is_var(node):\n",
+                'is_var memoised although the table of constants is '
+                'rebuilt for every input'),
 }
 
 
